@@ -99,6 +99,78 @@ impl<X: ToB + ?Sized> ToB for &X {
     }
 }
 
+/// state queries of a (possibly partly consumed) component / path iterator: absoluteness, root,
+/// the remaining bytes, and the remainder viewed as a path through the type's own accessor
+trait IterQ {
+    fn iq(&self) -> String;
+}
+impl IterQ for UnixComponents<'_> {
+    fn iq(&self) -> String {
+        format!("a{}r{}:{}:{}", self.is_absolute() as u8, self.has_root() as u8, hex(self.as_bytes()), hex(self.as_path::<UnixEncoding>().as_bytes()))
+    }
+}
+impl IterQ for WindowsComponents<'_> {
+    fn iq(&self) -> String {
+        format!("a{}r{}:{}:{}", self.is_absolute() as u8, self.has_root() as u8, hex(self.as_bytes()), hex(self.as_path::<WindowsEncoding>().as_bytes()))
+    }
+}
+impl IterQ for Utf8UnixComponents<'_> {
+    fn iq(&self) -> String {
+        format!("a{}r{}:{}:{}", self.is_absolute() as u8, self.has_root() as u8, hex(&self.as_str().tob()), hex(&self.as_path::<Utf8UnixEncoding>().tob()))
+    }
+}
+impl IterQ for Utf8WindowsComponents<'_> {
+    fn iq(&self) -> String {
+        format!("a{}r{}:{}:{}", self.is_absolute() as u8, self.has_root() as u8, hex(&self.as_str().tob()), hex(&self.as_path::<Utf8WindowsEncoding>().tob()))
+    }
+}
+impl IterQ for TypedComponents<'_> {
+    fn iq(&self) -> String {
+        format!("a{}r{}:{}:{}", self.is_absolute() as u8, self.has_root() as u8, hex(self.as_bytes()), hex(self.to_path().as_bytes()))
+    }
+}
+impl IterQ for Utf8TypedComponents<'_> {
+    fn iq(&self) -> String {
+        format!("a{}r{}:{}:{}", self.is_absolute() as u8, self.has_root() as u8, hex(&self.as_str().tob()), hex(&self.to_path().tob()))
+    }
+}
+impl<'a, T: for<'enc> Encoding<'enc> + 'a> IterQ for Iter<'a, T> {
+    fn iq(&self) -> String {
+        format!("{}", hex(self.as_path().as_bytes()))
+    }
+}
+impl<'a, T: for<'enc> Utf8Encoding<'enc> + 'a> IterQ for Utf8Iter<'a, T> {
+    fn iq(&self) -> String {
+        format!("{}", hex(&self.as_path().as_str().tob()))
+    }
+}
+impl IterQ for TypedIter<'_> {
+    fn iq(&self) -> String {
+        format!("{}", hex(self.to_path().as_bytes()))
+    }
+}
+impl IterQ for Utf8TypedIter<'_> {
+    fn iq(&self) -> String {
+        format!("{}", hex(&self.to_path().tob()))
+    }
+}
+fn iq_states<I: DoubleEndedIterator + Clone + IterQ>(it: I) -> String {
+    let mut v = vec![it.iq()];
+    let mut a = it.clone();
+    a.next();
+    v.push(a.iq());
+    let mut b = it.clone();
+    b.next_back();
+    v.push(b.iq());
+    a.next_back();
+    v.push(a.iq());
+    a.next();
+    v.push(a.iq());
+    b.next_back();
+    v.push(b.iq());
+    v.join(",")
+}
+
 fn show<X: ToB + ?Sized>(x: &X, win: bool) -> String {
     match x.variant() {
         Some(v) if v != win => format!("!VARIANT-CHANGED:{}", hex(&x.tob())),
@@ -230,6 +302,7 @@ macro_rules! partial_iter_lines {
         let b = it.nth_back(0).map(|c| hex(&c.tob()));
         v.push(format!("iter nth1={:?} nthback0={:?} rest={}", a, b, it.map(|c| hex(&c.tob())).collect::<Vec<_>>().join(",")));
         $t.push(format!("partial-iters {}", v.join(" ; ")));
+        $t.push(format!("iter-states components {} ; iter {}", iq_states(p.components()), iq_states(p.iter())));
     }};
 }
 
@@ -1045,6 +1118,41 @@ pub fn c15(ctx: &mut Ctx, tier: &str, seed: u64) {
     ctx.sample(format!("comps w {}", hex(br"a\b")));
 }
 
+/// every way of building a path value from raw bytes / strings, and of formatting one; returns a
+/// digest so that nothing is optimised away (C18 runs it under catch_unwind)
+fn constructors(s: &[u8]) -> usize {
+    use std::str::FromStr;
+    let mut n = 0usize;
+    let v = s.to_vec();
+    n += UnixPathBuf::from(s).as_bytes().len() + WindowsPathBuf::from(s).as_bytes().len();
+    n += UnixPathBuf::from(v.clone()).as_bytes().len() + WindowsPathBuf::from(v.clone()).as_bytes().len();
+    n += TypedPath::derive(s).as_bytes().len() + TypedPath::from(s).as_bytes().len();
+    n += TypedPathBuf::from(s).as_bytes().len() + TypedPathBuf::from(v.clone()).as_bytes().len();
+    n += TypedPathBuf::from_unix(s).as_bytes().len() + TypedPathBuf::from_windows(s).as_bytes().len();
+    n += format!("{} {:?}", UnixPath::new(s).display(), UnixPath::new(s)).len();
+    n += format!("{} {:?}", WindowsPath::new(s).display(), WindowsPath::new(s)).len();
+    n += format!("{} {:?}", TypedPath::unix(s).display(), TypedPath::windows(s)).len();
+    n += UnixPath::new(s).to_string_lossy().len() + WindowsPath::new(s).to_string_lossy().len() + TypedPath::derive(s).to_string_lossy().len();
+    n += UnixPath::new(s).to_str().map_or(0, |x| x.len()) + TypedPath::derive(s).to_str().map_or(0, |x| x.len());
+    n += UnixComponent::try_from(s).is_ok() as usize + WindowsComponent::try_from(s).is_ok() as usize + WindowsPrefix::try_from(s).is_ok() as usize;
+    n += Utf8UnixPath::from_bytes_path(UnixPath::new(s)).is_ok() as usize + Utf8WindowsPathBuf::from_bytes_path_buf(WindowsPathBuf::from(s)).is_ok() as usize;
+    if let Ok(st) = std::str::from_utf8(s) {
+        let owned = st.to_string();
+        n += UnixPathBuf::from(st).as_bytes().len() + WindowsPathBuf::from(owned.clone()).as_bytes().len();
+        n += UnixPathBuf::from_str(st).map_or(0, |x| x.as_bytes().len()) + WindowsPathBuf::from_str(st).map_or(0, |x| x.as_bytes().len());
+        n += Utf8UnixPathBuf::from(st).as_str().len() + Utf8WindowsPathBuf::from(owned.clone()).as_str().len();
+        n += Utf8UnixPathBuf::from_str(st).map_or(0, |x| x.as_str().len()) + Utf8WindowsPathBuf::from_str(st).map_or(0, |x| x.as_str().len());
+        n += TypedPath::from(st).as_bytes().len() + TypedPathBuf::from(st).as_bytes().len() + TypedPathBuf::from(owned.clone()).as_bytes().len();
+        n += Utf8TypedPath::derive(st).as_str().len() + Utf8TypedPath::from(st).as_str().len();
+        n += Utf8TypedPathBuf::from(st).as_str().len() + Utf8TypedPathBuf::from(owned.clone()).as_str().len();
+        n += Utf8TypedPathBuf::from_unix(st).as_str().len() + Utf8TypedPathBuf::from_windows(st).as_str().len();
+        n += format!("{} {:?} {} {:?}", Utf8UnixPath::new(st), Utf8WindowsPath::new(st), Utf8TypedPath::derive(st), Utf8TypedPath::unix(st)).len();
+        n += Utf8UnixComponent::try_from(st).is_ok() as usize + Utf8WindowsComponent::try_from(st).is_ok() as usize + Utf8WindowsPrefix::try_from(st).is_ok() as usize;
+        n += UnixComponent::try_from(st).is_ok() as usize + WindowsComponent::try_from(st).is_ok() as usize;
+    }
+    n
+}
+
 pub fn c18(ctx: &mut Ctx, tier: &str, seed: u64) {
     let t = tier_is_thorough(tier);
     let big = if t { 65536 } else { 16384 };
@@ -1084,6 +1192,9 @@ pub fn c18(ctx: &mut Ctx, tier: &str, seed: u64) {
             if tb.iter().any(|l| l == "PANIC") || tt.iter().any(|l| l == "PANIC") || h.is_err() {
                 ctx.fail("panic-on-long-input", None, format!("comps {} {}", gen::e(win), hex(&s[..s.len().min(64)])), format!("shape {} ({} bytes) arg {} bytes", name, s.len(), a.len()));
             }
+            if a.is_empty() && crate::util::quiet_catch(|| constructors(s)).is_err() {
+                ctx.fail("panic-in-constructor", None, format!("derive {}", hex(&s[..s.len().min(64)])), format!("shape {}", name));
+            }
             if el.as_secs_f64() > 20.0 {
                 ctx.fail("too-slow-on-long-input", None, format!("comps {} {}", gen::e(win), hex(&s[..s.len().min(64)])), format!("shape {} ({} bytes): {:?} for one transcript", name, s.len(), el));
             }
@@ -1109,6 +1220,9 @@ pub fn c18(ctx: &mut Ctx, tier: &str, seed: u64) {
             if tb.iter().any(|l| l == "PANIC") {
                 ctx.fail("panic", None, format!("comps {} {}", gen::e(win), hex(s)), format!("arg \"{}\"", lossy(a)));
             }
+            if crate::util::quiet_catch(|| constructors(s)).is_err() {
+                ctx.fail("panic-in-constructor", None, format!("derive {}", hex(s)), "a From / FromStr / TryFrom / derive / Display call panicked".into());
+            }
             if let (Ok(st), Ok(sa)) = (std::str::from_utf8(s), std::str::from_utf8(a)) {
                 if t_utf8(win, st, sa).iter().any(|l| l == "PANIC") {
                     ctx.fail("panic-utf8", None, format!("comps {} {}", gen::e(win), hex(s)), format!("arg \"{}\"", lossy(a)));
@@ -1127,6 +1241,9 @@ pub fn c18(ctx: &mut Ctx, tier: &str, seed: u64) {
     let aa: Vec<&str> = vec!["", "x", "é", "a.é"];
     for (i, s) in u8d.iter().enumerate() {
         let st = std::str::from_utf8(s).unwrap();
+        if crate::util::quiet_catch(|| constructors(s)).is_err() {
+            ctx.fail("panic-in-constructor", None, format!("derive {}", hex(s)), "a From / FromStr / TryFrom / derive / Display call panicked".into());
+        }
         for win in [false, true] {
             let a = aa[(i + win as usize) % aa.len()];
             crate::util::at(format!("setext {} {} {}", gen::e(win), hex(s), hex(a.as_bytes())));
